@@ -148,12 +148,14 @@ Clauses(r) ==
                                                      \cup If(GU(r), {"NoUnusedPoints"}) \cup If(GD(r), {"NoDuplicatePoints"})
     [] r.op = "flip2" -> {"SameMesh"}
     [] r.op = "flip1" -> {"FlipInverts"}
-    [] r.op = "triangulate" -> {"VolumePreserved", "FacesAtMostTwice"} \cup If(GO(r), {"PositiveOrientation"}) \cup If(GU(r), {"NoUnusedPoints"})
-    [] r.op = "expand" -> {"ExpandVolume", "FacesAtMostTwice"} \cup If(GO(r), {"PositiveOrientation"}) \cup If(GU(r), {"NoUnusedPoints"})
+    \* (cells collapsed onto a revolution axis are not valid cells: their sub-cells / mid-points coincide, tiling and centroid-set
+    \*  clauses presuppose a valid parent)
+    [] r.op = "triangulate" -> {"VolumePreserved"} \cup If(GO(r), {"PositiveOrientation", "FacesAtMostTwice"}) \cup If(GU(r), {"NoUnusedPoints"})
+    [] r.op = "expand" -> {"ExpandVolume"} \cup If(GO(r), {"PositiveOrientation", "FacesAtMostTwice"}) \cup If(GU(r), {"NoUnusedPoints"})
                           \cup If(GD(r), {"NoDuplicatePoints"})
     [] r.op = "revolve" -> If(OffAxis(r) /\ GO(r), {"PositiveOrientation", "RevolveVolume", "FacesAtMostTwice"}
                                                    \cup If(GU(r), {"NoUnusedPoints"}) \cup If(GD(r), {"NoDuplicatePoints"}))
-    [] r.op = "midpoints" -> {"CornersUnmoved", "MidpointsAreCentroids", "VolumePreserved"} \cup If(GO(r), {"PositiveOrientation"})
+    [] r.op = "midpoints" -> {"CornersUnmoved", "VolumePreserved"} \cup If(GO(r), {"PositiveOrientation", "MidpointsAreCentroids"})
                              \cup If(GU(r), {"NoUnusedPoints"})
     [] r.op \in {"concatenate", "stack"} -> {"VolumePreserved"} \cup If(GO(r), {"PositiveOrientation"})
     [] r.op = "disconnect" -> {"CornersUnmoved", "CellsOwnPoints", "VolumePreserved"} \cup If(GO(r), {"PositiveOrientation"})
